@@ -471,7 +471,8 @@ def level1(rep, wd):
     for S in sorted(L1_TYPES):
         spec = l1_spec(S)
         routines = {v[0] for v in spec.values()}
-        ev.record_external = lambda c, routines=routines: c in routines
+        # a block move of element storage is an effect too: it takes the place of (or adds to) the BLAS call and is reported as such
+        ev.record_external = lambda c, routines=routines: c in routines or c.startswith("llvm.memmove") or c.startswith("llvm.memcpy")
         for fn0, (routine, pos, order, meaning) in sorted(spec.items()):
             fn = fn0 + "_" + S
             for xs, ys in itertools.product(("1", ">1"), repeat=2):
@@ -483,36 +484,67 @@ def level1(rep, wd):
                 args = [A("xb"), env["x0"], A("xb") + A("dxy"), env["y0"], cnt, irval.atom("float", "al"), A("rp"), A("dp")]
                 key = "B13.l1:%s<%s>[incx%s%s]" % (fn0[2:], S, xs, (" incy" + ys) if "y" in pos else "")
                 n += 1
+                esz = L1_TYPES[S]
+
+                def judge(calls, x0, y0, cnt_):
+                    """problems of the recorded effects against the wrapper's contract, for operands (xb, inc x0), (xb + dxy, inc y0), count cnt_"""
+                    if len(calls) == 1 and calls[0][0].startswith("llvm.mem") and fn0 == "l_copy":
+                        # a block move of the element storage is the copy exactly when both increments are one and it moves count elements x -> y
+                        v_ = calls[0][1]
+                        if x0 == P.const(1) and y0 == P.const(1) and v_[0] == A("xb") + A("dxy") and v_[1] == A("xb") and v_[2] == cnt_ * esz:
+                            return []
+                        return ["a block move of %r bytes from %r to %r stands for the copy of %r elements with increments (%r, %r)" % (v_[2], v_[1], v_[0], cnt_, x0, y0)]
+                    if len(calls) != 1 or calls[0][0] != routine:
+                        return ["expected one call of %s, got %s" % (routine, [c[0] for c in calls])]
+                    vals, der = calls[0][1], calls[0][2]
+
+                    def arg(i):
+                        return der[i] if der[i] is not None else vals[i]
+                    want_x, want_incx, want_y, want_incy = A("xb"), x0, A("xb") + A("dxy"), y0
+                    if order.startswith("yx"):
+                        want_x, want_incx, want_y, want_incy = want_y, want_incy, want_x, want_incx
+                    bad_ = []
+                    if arg(pos["n"]) != cnt_:
+                        bad_.append("count %r, expected %r" % (arg(pos["n"]), cnt_))
+                    if arg(pos["x"]) != want_x or arg(pos["incx"]) != want_incx:
+                        bad_.append("first vector (%r, inc %r), expected (%r, inc %r)" % (arg(pos["x"]), arg(pos["incx"]), want_x, want_incx))
+                    if "y" in pos and (arg(pos["y"]) != want_y or arg(pos["incy"]) != want_incy):
+                        bad_.append("second vector (%r, inc %r), expected (%r, inc %r)" % (arg(pos["y"]), arg(pos["incy"]), want_y, want_incy))
+                    if order.endswith("*"):
+                        # the 1 x n matrix-vector form: trans 'N', one row, unit result stride
+                        if not (arg(0).is_const() and int(arg(0).const_value()) == 78 and arg(1) == P.const(1) and arg(10) == P.const(1) and arg(9) == A("rp")):
+                            bad_.append("the matrix-vector form is not ('N', 1, n, ..., r, 1)")
+                    return bad_
                 try:
                     ev.run(fn, args, signs)
                 except irval.Inconclusive as e:
-                    rep.inconclusive(key, "B13.l1", str(e))
+                    # the wrapper branches on a relation between the increments (or the count) that the case does not fix: decide on concrete members
+                    wit = None
+                    decided = 0
+                    for xp_, yp_, nn_ in itertools.product(range(3), repeat=3):
+                        penv = {"xp": P.const(xp_), "yp": P.const(yp_), "nn": P.const(nn_)}
+                        cargs = [a_.subst(penv) if isinstance(a_, P) else a_ for a_ in args]
+                        try:
+                            ev.run(fn, cargs, signs)
+                        except (irval.Inconclusive, irval.AssertFires):
+                            continue
+                        decided += 1
+                        cc = [c for c in ev.extcalls if c[0] in routines or c[0].startswith("llvm.mem")]
+                        b_ = judge(cc, env["x0"].subst(penv), env["y0"].subst(penv), cnt.subst(penv))
+                        if b_:
+                            wit = (dict(incx=str(env["x0"].subst(penv)), incy=str(env["y0"].subst(penv)), n=nn_ + 1), b_)
+                            break
+                    if wit:
+                        rep.violated(key, "B13.l1", "%s<%s> (%s): the wrapper takes an increment-dependent shortcut and for %s: %s" % (fn0[2:], S, meaning, wit[0], "; ".join(wit[1])),
+                                     dict(member=wit[0], problems=wit[1]))
+                    else:
+                        rep.inconclusive(key, "B13.l1", str(e) + " (%d concrete members agree)" % decided)
                     continue
                 except irval.AssertFires as e:
                     rep.violated(key, "B13.l1", "%s aborts on a valid vector pair: %s" % (fn0[2:], e), dict())
                     continue
-                calls = [c for c in ev.extcalls if c[0] in routines]
-                if len(calls) != 1 or calls[0][0] != routine:
-                    rep.violated(key, "B13.l1", "%s (%s): expected one call of %s, got %s" % (fn0[2:], meaning, routine, [c[0] for c in calls]), dict())
-                    continue
-                vals, der = calls[0][1], calls[0][2]
-
-                def arg(i):
-                    return der[i] if der[i] is not None else vals[i]
-                want_x, want_incx, want_y, want_incy = A("xb"), env["x0"], A("xb") + A("dxy"), env["y0"]
-                if order.startswith("yx"):
-                    want_x, want_incx, want_y, want_incy = want_y, want_incy, want_x, want_incx
-                bad = []
-                if arg(pos["n"]) != cnt:
-                    bad.append("count %r, expected %r" % (arg(pos["n"]), cnt))
-                if arg(pos["x"]) != want_x or arg(pos["incx"]) != want_incx:
-                    bad.append("first vector (%r, inc %r), expected (%r, inc %r)" % (arg(pos["x"]), arg(pos["incx"]), want_x, want_incx))
-                if "y" in pos and (arg(pos["y"]) != want_y or arg(pos["incy"]) != want_incy):
-                    bad.append("second vector (%r, inc %r), expected (%r, inc %r)" % (arg(pos["y"]), arg(pos["incy"]), want_y, want_incy))
-                if order.endswith("*"):
-                    # the 1 x n matrix-vector form: trans 'N', one row, unit result stride
-                    if not (arg(0).is_const() and int(arg(0).const_value()) == 78 and arg(1) == P.const(1) and arg(10) == P.const(1) and arg(9) == A("rp")):
-                        bad.append("the matrix-vector form is not ('N', 1, n, ..., r, 1)")
+                calls = [c for c in ev.extcalls if c[0] in routines or c[0].startswith("llvm.mem")]
+                bad = judge(calls, env["x0"], env["y0"], cnt)
                 if bad:
                     rep.violated(key, "B13.l1", "%s<%s> (%s): the %s call does not denote the operands: %s" % (fn0[2:], S, meaning, routine, "; ".join(bad)), dict(problems=bad))
                 else:
@@ -1106,7 +1138,7 @@ def forms_rule(rep, wd):
             rep.break_("R13.forms: the forms of %s do not compile: %s" % (fam, (m.group(1) if m else err)[:200]))
             continue
         ev = irval.Evaluator(*mod)
-        ev.record_external = lambda c: c in FORM_ROUTINES or c in FORM_HEAP
+        ev.record_external = lambda c: c in FORM_ROUTINES or c in FORM_HEAP or c.startswith("llvm.memmove") or c.startswith("llvm.memcpy")
 
         def model(callee, vals, derefs, idx):
             # output parameter of the routine (the result vector of the 1 x n matrix-vector form of the complex dot product)
@@ -1142,6 +1174,9 @@ def forms_rule(rep, wd):
             for callee, vals, der, stk in ev.extcalls:
                 if callee in FORM_HEAP:
                     calls.append((callee, ()))
+                    continue
+                if callee.startswith("llvm.mem"):
+                    calls.append((callee.split(".p0")[0], tuple(vals[:3])))      # a block move of element storage: destination, source, bytes
                     continue
                 norm = []
                 for i, v in enumerate(vals):
